@@ -20,7 +20,7 @@ theorem SwInv.empty (L : Nat) : SwInv (MultiCouplingTerms.empty L : MultiCouplin
 /-- under the invariants `to_TermList` is the sum over the connections -/
 theorem termlist_denote (mt : MultiCouplingTerms α) (h : MInv mt) (hs : SwInv mt) :
     STermList.denote mt.L mt.toTermListS = mt.connDenote := by
-  rw [toTermListS_eq, connDenote_eq]
+  rw [multi_toTermListS_eq, connDenote_eq]
   unfold STermList.denote
   rw [List.map_filterMap]
   apply List.filterMap_congr
